@@ -82,4 +82,4 @@ func VC15Sizes(pr Provider) (int, int, int, int) {
 }
 
 // VC15IsEmptyCursor tells whether c is the shared empty cursor
-func VC15IsEmptyCursor(c Cursor) bool { return c == emptyCur }
+func VC15IsEmptyCursor(c Cursor) bool { _, ok := c.(emptyCursor); return ok }
